@@ -29,19 +29,15 @@ Qed.
 Lemma get_merge_edges ce ae e :
   gete e (merge_edges ce ae) =
   match gete e ce, gete e ae with
-  | Some (d, f), Some _ => Some (d, true)
-  | Some (d, f), None => Some (d, f)
-  | None, Some d => Some (d, false)
+  | Some d, _ => Some d
+  | None, Some d => Some d
   | None, None => None
   end.
 Proof.
   unfold merge_edges, gete. rewrite (get_app ekey_eqb).
-  rewrite (get_map ekey_eqb ekey_eqb_eq (fun k df => (fst df, snd df || hase k ae))).
-  destruct (get ekey_eqb e ce) as [[d f]|] eqn:Ec; simpl.
-  - unfold hase, has. destruct (get ekey_eqb e ae); simpl; [rewrite orb_true_r | rewrite orb_false_r]; reflexivity.
-  - rewrite (get_map ekey_eqb ekey_eqb_eq (fun _ d => (d, false))).
-    rewrite (get_filter_key ekey_eqb ekey_eqb_eq (fun k => negb (hase k ce))).
-    unfold hase, has. rewrite Ec. simpl. destruct (get ekey_eqb e ae); reflexivity.
+  destruct (get ekey_eqb e ce) as [d|] eqn:Ec; simpl; auto.
+  rewrite (get_filter_key ekey_eqb ekey_eqb_eq (fun k => negb (hase k ce))).
+  unfold hase, has. rewrite Ec. simpl. destruct (get ekey_eqb e ae); reflexivity.
 Qed.
 
 Lemma smerge_Some C A C' :
@@ -68,9 +64,8 @@ Lemma smerge_get_edge C A C' e :
   smerge C A = Some C' ->
   gete e (edges C') =
   match gete e (edges C), gete e (adm_edges A) with
-  | Some (d, f), Some _ => Some (d, true)
-  | Some (d, f), None => Some (d, f)
-  | None, Some d => Some (d, false)
+  | Some d, _ => Some d
+  | None, Some d => Some d
   | None, None => None
   end.
 Proof. intro H. apply smerge_Some in H as (_ & _ & ->). apply get_merge_edges. Qed.
@@ -109,14 +104,10 @@ Definition eqv_node (c c' : cnode) : Prop :=
   c_ld c = c_ld c' /\ c_cd c = c_cd c'.
 Definition opt_rel {A} (R : A -> A -> Prop) (x y : option A) : Prop :=
   match x, y with Some a, Some b => R a b | None, None => True | _, _ => False end.
-(* same elements, contributors as sets, same connections (with their contraction marks) *)
+(* same elements, contributors as sets, same connections *)
 Definition eqv (C C' : cbm) : Prop :=
   (forall k, opt_rel eqv_node (getn k (nodes C)) (getn k (nodes C'))) /\
   (forall e, gete e (edges C) = gete e (edges C')).
-(* ... ignoring the contraction marks *)
-Definition eqv_noflag (C C' : cbm) : Prop :=
-  (forall k, opt_rel eqv_node (getn k (nodes C)) (getn k (nodes C'))) /\
-  (forall e, option_map fst (gete e (edges C)) = option_map fst (gete e (edges C'))).
 
 Lemma eqv_node_refl c : eqv_node c c.
 Proof. unfold eqv_node; intuition. Qed.
@@ -142,9 +133,6 @@ Proof.
   destruct (getn k (nodes A)), (getn k (nodes B)), (getn k (nodes C)); simpl in *; try tauto.
   eauto using eqv_node_trans.
 Qed.
-Lemma eqv_eqv_noflag C C' : eqv C C' -> eqv_noflag C C'.
-Proof. intros [H1 H2]; split; auto. intro e; rewrite H2; reflexivity. Qed.
-
 (* smerge respects the equivalence *)
 Lemma upd_eqv g a c c' : eqv_node c c' -> eqv_node (upd g a c) (upd g a c').
 Proof.
@@ -273,7 +261,7 @@ Proof.
   - intro e.
     rewrite (smerge_get_edge _ _ _ e H2), (smerge_get_edge _ _ _ e H1),
             (smerge_get_edge _ _ _ e H2'), (smerge_get_edge _ _ _ e H1').
-    destruct (gete e (edges C)) as [[d f]|], (gete e (adm_edges A)) as [da|] eqn:Ea,
+    destruct (gete e (edges C)) as [d|], (gete e (adm_edges A)) as [da|] eqn:Ea,
              (gete e (adm_edges B)) as [db|] eqn:Eb; auto.
     rewrite (CE e da db Ea Eb). reflexivity.
 Qed.
